@@ -69,6 +69,36 @@ def run_case(case: dict) -> CaseResult:
         base = len(tr.writes)
     frames_written = 0
     flow = case.get("flow") or {}
+    # a long session before the generated calls: `prefix_frames` single-packet writes, each decoded / authenticated
+    # under its own explicit nonce (byte boundaries of the 64-bit counter: 255->256, 65535->65536)
+    npre = int(case.get("prefix_frames") or 0)
+    if npre:
+        dbg = bool(case.get("debug"))
+        for i in range(npre):
+            t, p = 1 + i % 123, (b"" if i % 3 else bytes([i & 0xFF]))
+            before = len(tr.writes)
+            h.write_packets([(t, p)], dbg)
+            new = tr.writes[before:]
+            ok = len(new) == 1
+            if ok and case["mode"] == "plain":
+                ok = new[0] == wire.enc_plain(t, p)
+            elif ok:
+                try:
+                    bodies, rest = wire.parse_noise_outer(new[0])
+                    ok = rest == len(new[0]) and len(bodies) == 1 and wire.dec_noise_inner(r.decrypt_at(bodies[0][0], frames_written)) == (t, len(p), p)
+                except (wire.PlainParseError, noise_ref.InvalidTag):
+                    ok = False
+            if not ok:
+                res.violations.append(Violation(ID, "c02:long-session-frame", f"frame #{frames_written} of a long session (single-packet writes) is not the documented encoding of ({t}, {len(p)} bytes) under nonce {frames_written}"))
+                res.nontrivial = True
+                res.classes = sorted(classes | {"long_session"})
+                return res
+            frames_written += 1
+            del tr.writes[before:]
+        classes.add("long_session")
+        if npre >= 256:
+            classes.add("nonce_ge_256")
+        nt = True
     for ci, batch in enumerate(calls):
         # transport flow-control callbacks (pause_writing / resume_writing) and loop turns between the write calls:
         # every batch is still one immediate write, in call order
@@ -84,7 +114,7 @@ def run_case(case: dict) -> CaseResult:
                 fstub.loop().run_until_complete(asyncio.sleep(0))
         before = len(tr.writes)
         try:
-            h.write_packets(list(batch), False)
+            h.write_packets(list(batch), bool(case.get("debug")))
         except Exception as e:  # noqa: BLE001
             res.violations.append(Violation(ID, f"c02:write_packets-raised:{type(e).__name__}", repr(e)))
             break
@@ -200,6 +230,8 @@ def _case(draw, tier):
         case["flow"] = {str(i): draw(st.lists(st.sampled_from(["pause", "resume", "turn"]), min_size=1, max_size=3)) for i in range(len(calls)) if draw(st.booleans())}
     if mode == "noise":
         case["key"] = draw(st.one_of(st.binary(min_size=32, max_size=32), st.sampled_from([bytes(32), b"\xff" * 32]))).hex()
+    if draw(st.integers(0, 19)) == 11:
+        case["prefix_frames"] = draw(st.one_of(st.integers(250, 262), st.integers(100, 1200)))
     return case
 
 
@@ -232,6 +264,17 @@ def enumerated(tier):
             c["key"] = key
         yield c
         yield {**c, "flow": {"0": ["pause"], "1": ["turn"], "2": ["resume", "turn"], "4": ["pause", "resume"]}}
+    # long sessions: the nonce counter crosses its first (and, thorough: second) byte boundary
+    tail = [[[7, {"h": ""}]], [[33, {"h": "0801"}], [30, {"h": "10"}]], [[8, {"h": ""}]]]
+    for n in (254, 255, 256, 511, 513, 770) + ((65534, 65536, 131071) if tier == "thorough" else (65535,)):
+        yield {"mode": "noise", "key": key, "prefix_frames": n, "calls": tail}
+    yield {"mode": "plain", "prefix_frames": 300, "calls": tail}
+    # debug logging on while large frames are written
+    for mode in ("plain", "noise"):
+        c = {"mode": mode, "debug": True, "calls": [[[1, {"h": "", "pad": [0x41, ln]}]] for ln in (1000, 1017, 1018, 1019, 1024, 1025, 2048, 16384, 65515)] + [[[1, {"h": "", "pad": [0x42, 700]}], [2, {"h": "", "pad": [0x43, 700]}]]]}
+        if mode == "noise":
+            c["key"] = key
+        yield c
     from vf.props import c02_api
 
     yield from c02_api.enumerated(tier)
